@@ -210,12 +210,14 @@ def FnRec.toPlace (f : FnRec) (r : Row) : Place :=
 
 /-- `prolog_start_place` / `prolog_end_place` as (index, row) in the window -/
 def FnRec.prologPlaces (f : FnRec) : Option ((Nat × Row) × (Nat × Row)) :=
-  match lowPc f.ranges with
-  | none => none
-  | some lo =>
+  match lowPc f.ranges, endPc f.ranges with
+  | some lo, some endA =>
     match findPlaceByPc f.rows lo with
     | none => none
-    | some (i, r) => some ((i, r), peWalk f.rows (f.rows.size - i) i r)
+    | some (i, r) =>
+      -- `prolog_end_place` (repaired): the first prologue_end row of the FUNCTION below its end, else the start place
+      some ((i, r), (peWalkIn f.rows f.ranges endA (f.rows.size - i) i).getD (i, r))
+  | _, _ => none
 
 /-- `func.prolog()`: `Range { begin: start.address, end: end.address }` -/
 def FnRec.prolog (f : FnRec) : Option Rng :=
